@@ -4,8 +4,8 @@
    under a `_partial` twin (see DESIGN.md section 9). *)
 From Coq Require Import List String Bool Permutation.
 Import ListNotations.
-From DI Require Import Syntax Tokens Bounds Param Subs Superset Substitute Spec RustSem Group Search Validate IMap Hygiene Dispatch Examples ExamplesGroup ExamplesF16.
-From DI.proofs Require Import Basics SupersetSound SupersetExact SupersetComplete SupersetWf SubstituteProofs SubstituteSpec BoundsProofs DispatchProofs GroupProofs SearchProofs ParamProofs ParamAlpha RustSemProofs ValidateProofs IMapProofs HygieneProofs.
+From DI Require Import Syntax Tokens Bounds Param Subs Superset Substitute Spec RustSem Group Search Gen Validate IMap Hygiene Dispatch Examples ExamplesGroup ExamplesF16.
+From DI.proofs Require Import Basics SupersetSound SupersetExact SupersetComplete SupersetWf SubstituteProofs SubstituteSpec BoundsProofs DispatchProofs GroupProofs SearchProofs GenProofs ParamProofs ParamAlpha RustSemProofs ValidateProofs IMapProofs HygieneProofs.
 
 (* ===================================================================================== *)
 (* C09 -- header generalisation is exact first-order matching                             *)
@@ -226,6 +226,19 @@ Theorem C01_dispatch_sound : forall (Q V : Type) keyvals (members : list (member
   forall m', In m' members -> m_applies Q V m' q = true -> m' = m.
 Proof. exact dispatch_sound. Qed.
 Print Assumptions C01_dispatch_sound.
+
+(* the generated helper impl is the user's block verbatim -- generics, self type, where-clause
+   and items (visibilities dropped in inherent mode) -- with only the trait path replaced by the
+   helper trait applied to the row: the assumption `helper_applies m q v = m_applies m q &&
+   m_row m q v` of Dispatch.v, for the function Gen.gen_helper_impl that `check C01` compares
+   with the macro's own helper impls *)
+Theorem C01_helper_impl_verbatim : forall idx first keys row lb gen tr self wh li items h,
+  gen_helper_impl idx first keys row (Node lb [gen; tr; self; wh; Node li items]) = Some h ->
+  exists lo' p items',
+    h = Node lb [gen; Node lo' [p]; self; wh; Node li items'] /\ is_kind "OSome" lo' = true /\
+    (items' = items \/ (tr = Node (tlabel tr) [] /\ items' = map strip_vis items)).
+Proof. exact gen_helper_verbatim. Qed.
+Print Assumptions C01_helper_impl_verbatim.
 
 (* ===================================================================================== *)
 (* C11 -- family formation.  The search is validated per grouping by the checker gi_check   *)
